@@ -373,6 +373,18 @@ def run(check):
             else:
                 case = {"id": cid, "mode": "engine", "files": dprog.files(), "scripts": dscripts, "runs": [], "extra": {"engine": {"input_yaml": json.dumps(ddoc)}}}
             items.append((case, {"schema": -4, "kind": "valid", "entry": entry, "valid": True, "expected": ref.normalise_input(dsch, ddoc), "doc": ddoc, "sum": ddoc.get("n", 20) + 1}))
+    # one prepared workflow run several times with different valid inputs, the input referred to inside list literals (flat and
+    # nested, in the output, in a step input and in the items of a loop): every run sees its own input
+    multi = []
+    for j in range(check.pick(6, 30)):
+        msch = InputSchema({"tag": {"type": "string"}, "name": {"type": "string", "required": False, "default": "dflt"}, "ms": {"type": "integer", "required": False, "default": 4}})
+        e1 = gen.plugin_step("e1", "lit", extra_input={"l": [Expr(In("tag")), "const", Expr(In("name"))], "a": {"nested": [[Expr(In("ms"))], Expr(In("tag"))]}})
+        sub = Program([gen.plugin_step("w0", Expr(In("tag")), src="sub_w0")], {"success": {"t": gen.tagref("w0")}}, gen.SUB_INPUT, name="sub.yaml")
+        loop = Step("loop", "foreach", sub=sub, items=[{"tag": Expr(In("tag"))}, {"tag": Expr(In("name"))}])
+        mprog = Program([e1, loop], {"success": {"flat": [Expr(In("name")), Expr(In("tag")), "k"], "ints": [Expr(In("ms")), Expr(In("ms"))], "d": Expr(Ref("loop", "outputs", "success", "data")), "e1": Expr(Ref("e1", "outputs", "success"))}}, msch)
+        docs = [{"tag": "r0_%d" % j, "name": "first", "ms": 3}, {"tag": "r1_%d" % j}, {"tag": "r2_%d" % j, "name": "third", "ms": 5}, {"tag": "r3_%d" % j, "ms": 9}][: 3 + j % 2]
+        case = {"id": "c19-m%04d" % j, "files": mprog.files(), "scripts": gen.make_scripts(mprog.steps, {}), "runs": [dict({"input": d, "tag": "r%d" % q}, **({"parallel": True} if j % 3 == 2 else {})) for q, d in enumerate(docs)]}
+        multi.append((case, docs))
     # one step registry (one engine instance) used for several workflow trees whose sub-workflow file has the same name but
     # another input schema: the items of each tree's loop are normalised by that tree's own sub-workflow schema. Each tree is
     # also run alone; its result in the sequence must be the same
@@ -406,6 +418,27 @@ def run(check):
     with harness.Runner() as rn:
         out = rn.run_cases([c for c, _m in items], per_case_timeout=60)
         sout = rn.run_cases([c for _k, _o, c in seq_cases], per_case_timeout=60)
+        mout = rn.run_cases([c for c, _d in multi], per_case_timeout=60)
+    for case, docs in multi:
+        o = mout.get(case["id"], {})
+        check.count()
+        res = o.get("result") or {}
+        runs = {r.get("tag"): r for r in res.get("runs") or []}
+        if "death" in o or res.get("prepare_err") or res.get("parse_err") or len(runs) != len(docs):
+            check.inconclusive_case(case["id"], str(o.get("death", {}).get("key") or res.get("prepare_err") or "runs missing"))
+            continue
+        for q, d in enumerate(docs):
+            r = runs.get("r%d" % q) or {}
+            data = ref.denum(r.get("data")) or {}
+            name, ms = d.get("name", "dflt"), d.get("ms", 4)
+            want = {"flat": [name, d["tag"], "k"], "ints": [ms, ms], "d": [{"t": "sub_w0(%s)" % d["tag"]}, {"t": "sub_w0(%s)" % name}]}
+            got = {k: data.get(k) for k in want}
+            e1l = ((data.get("e1") or {}).get("l"), ((data.get("e1") or {}).get("a") or {}).get("nested"))
+            if r.get("out_id") != "success" or got != want or e1l != ([d["tag"], "const", name], [[ms], d["tag"]]):
+                check.report("input@another-run's-input", "one prepared workflow run with the inputs %s: run %d returned %r / %s; expected %r and the step lists %r" % (
+                    docs, q, r.get("data"), (r.get("err") or "")[:150], want, ([d["tag"], "const", name], [[ms], d["tag"]])), {"case": case})
+                break
+        check.nontrivial("multi-run|%d" % len(docs))
     alone = {}
     for kind, order, case in seq_cases:
         o = sout.get(case["id"], {})
